@@ -95,7 +95,14 @@ func vhArgOp() Operator {
 const vhAnyCount = 27
 
 // vhAnyValue returns entry k of the catalogue.
+// vhSpecial, when set, replaces catalogue entry 3 (an initialised Stack): it
+// lets a harness hand a particular instance to every `any` parameter.
+var vhSpecial any
+
 func vhAnyValue(k int) any {
+	if k == 3 && vhSpecial != nil {
+		return vhSpecial
+	}
 	switch k {
 	case 0:
 		return nil
@@ -368,6 +375,7 @@ func vhResultSame(a, b any) bool {
 // replays (the engine re-runs the package initialiser on every path).
 func vhResetGlobals() {
 	vhAnyLimit, vhVarMax, vhIntCap, vhTruthyWhenZero, vhSymOpBudget = 0, 2, 0, false, 0
+	vhSpecial = nil
 	sLogDefault, cLogDefault = devNull, devNull
 	sLogLevelDefault, cLogLevelDefault = NoLogLevels, NoLogLevels
 }
